@@ -93,6 +93,9 @@ public:
     void set_max_search_space_size(Index max_search_space_size)
     {
         m_max_search_space_size = max_search_space_size;
+        // Apply the same limits as the constructor: the search space
+        // cannot have more vectors than the dimension of the matrix
+        initialize();
     }
     ///
     /// Sets how many correction vectors are added in each iteration
